@@ -79,7 +79,7 @@ pub fn run_queue_case(prop: &'static str, case: &QueueCase) -> Verdict {
             let counting = c.counting;
             let hold = c.hold;
             let total_elems = total;
-            handles.push(rt::thread::spawn(move || {
+            handles.push(shuttle::thread::spawn(move || {
                 let mut k = 0usize;
                 let mut empty_run = 0usize;
                 loop {
@@ -145,7 +145,7 @@ pub fn run_queue_case(prop: &'static str, case: &QueueCase) -> Verdict {
         }
         for (pi, yields) in c.pushers.iter().cloned().enumerate() {
             let (q, sh) = (q.clone(), sh.clone());
-            handles.push(rt::thread::spawn(move || {
+            handles.push(shuttle::thread::spawn(move || {
                 for (k, y) in yields.iter().enumerate() {
                     for _ in 0..*y {
                         rt::thread::yield_now();
